@@ -426,6 +426,37 @@ func vfC12Reassembly(t *testing.T, res *vfResult) {
 		res.Count("endurance_fragments", int64(len(recs)))
 		run(job{recs, totals})
 	}
+	// duplication endurance: fragments of a still incomplete message (and of a buffered future one) repeated more often
+	// than the buffer's fragment limit, as a peer retransmitting a flight with one persistently lost fragment does;
+	// duplicates occupy nothing, so the missing fragment must still be taken and the messages surface
+	_, maxCount := dtlsfragmentbuffer.VFLimits()
+	for _, future := range []bool{false, true} {
+		totals := map[uint16]int{0: 9, 1: 6}
+		m0 := vfFragsOf(0, []int{3, 3, 3})
+		m1 := vfFragsOf(1, []int{2, 4})
+		var recs [][]vfFrag
+		recs = append(recs, []vfFrag{m0[0]}, []vfFrag{m0[2]})
+		if future {
+			recs = append(recs, []vfFrag{m1[1]})
+		}
+		for k := 0; k < maxCount+300; k++ {
+			switch {
+			case future && k%3 == 2:
+				recs = append(recs, []vfFrag{m1[1]})
+			case k%2 == 0:
+				recs = append(recs, []vfFrag{m0[0]})
+			default:
+				recs = append(recs, []vfFrag{m0[2]})
+			}
+		}
+		recs = append(recs, []vfFrag{m0[1]}, []vfFrag{m1[0]})
+		if !future {
+			recs = append(recs, []vfFrag{m1[1]})
+		}
+		vfCurrent(0, "reasm-dup-endurance", fmt.Sprintf("future=%v, %d records", future, len(recs)))
+		res.Count("dup_endurance_fragments", int64(len(recs)))
+		run(job{recs, totals})
+	}
 	vfClearCurrent(0)
 }
 
